@@ -102,6 +102,27 @@ def judge_message(col: common.Collector, ll: codecrun.LoadedLayer, model: Dict[s
                 f"coded_const_prefix {pb.hex()} is not a prefix of {pdu.hex()}", values=vals)
             break
     col.count("prefix-checked")
+    # (2b) responses: the prefix depends on the request; ask for several requests in a row
+    # (each differing from the previous one in a single byte) and encode with each
+    if request is not None and accepted:
+        vals0, _ = accepted[0]
+        variants = [request]
+        for i in range(len(request) - 1, -1, -1):
+            prev = variants[-1]
+            variants.append(prev[:i] + bytes([(prev[i] + 1) & 0xFF]) + prev[i + 1:])
+        variants += [request]
+        for rq2 in variants:
+            pfx = codecrun.call(obj.coded_const_prefix, rq2)
+            e2 = codecrun.encode(obj, vals0, rq2)
+            col.ev()
+            if pfx.ok and e2.ok and not e2.overlap_warnings:
+                pb2 = bytes(pfx.value)
+                if e2.value[:len(pb2)] != pb2:
+                    bad("prefix-not-a-prefix", "response/request-varied",
+                        f"for request {rq2.hex()} coded_const_prefix gives {pb2.hex()} but the "
+                        f"response encodes to {e2.value.hex()}", values=vals0, varied_request=rq2)
+                    break
+        col.count("response-prefix-request-variants")
     # (3) required parameters
     vals, pdu = accepted[0]
     for p in rq["params"]:
@@ -237,8 +258,27 @@ def prefix_probe_layer() -> Dict[str, Any]:
         {"name": "pp_bits", "shape": "sub-byte-constant", "feat": {"shape": "sub-byte-constant"},
          "params": [p_const("hi", dct_std("A_UINT32", 4), 0xA, byte=0, bit=4), p_value("lo", "u4", byte=0, bit=0)]},
     ]
-    m.update({"requests": rqs, "pos": [], "neg": [],
-              "services": [{"name": "svc_" + r["name"], "request": r["name"], "pos": [], "neg": []}
+    rqs.append({"name": "pp_did", "shape": "request-with-did", "feat": {"shape": "request-with-did"},
+                "params": [u8const("sid", 0x22), p_value("did", "u16"), p_value("opt", "u8")]})
+    pos = [{"name": "pr_echo2", "for": "pp_did", "shape": "response-echo-2-bytes",
+            "feat": {"shape": "response-echo-2-bytes"},
+            "params": [u8const("rsid", 0x62),
+                       {"p": "MATCHING-REQUEST-PARAM", "name": "did", "req_pos": 1, "len": 2},
+                       p_value("r", "u8")]},
+           {"name": "pr_echo3", "for": "pp_did", "shape": "response-echo-3-bytes",
+            "feat": {"shape": "response-echo-3-bytes"},
+            "params": [u8const("rsid", 0x62),
+                       {"p": "MATCHING-REQUEST-PARAM", "name": "tail", "req_pos": 1, "len": 3}]}]
+    neg = [{"name": "nr_echo", "for": "pp_did", "shape": "neg-echo-sid-did",
+            "feat": {"shape": "neg-echo-sid-did"},
+            "params": [u8const("nsid", 0x7F),
+                       {"p": "MATCHING-REQUEST-PARAM", "name": "rq_sid", "req_pos": 0, "len": 1},
+                       {"p": "MATCHING-REQUEST-PARAM", "name": "rq_did", "req_pos": 1, "len": 2},
+                       p_value("nrc", "u8")]}]
+    m.update({"requests": rqs, "pos": pos, "neg": neg,
+              "services": [{"name": "svc_" + r["name"], "request": r["name"],
+                            "pos": [p["name"] for p in pos if p["for"] == r["name"]],
+                            "neg": [n["name"] for n in neg if n["for"] == r["name"]]}
                            for r in rqs]})
     return m
 
@@ -286,7 +326,8 @@ def run(tier: str, col: common.Collector) -> None:
     tasks.append(("compose", prefix_probe_layer(), tier, seed + 9))
     common.pmap(run_layer, tasks, col)
     for need in ("cell:STD", "cell:compose", "static-length-known", "static-length-none",
-                 "prefix-checked", "free-varied", "nonfree-probed", "dobjs-checked", "responses"):
+                 "prefix-checked", "free-varied", "nonfree-probed", "dobjs-checked", "responses",
+                 "response-prefix-request-variants"):
         if not col.counters.get(need):
             col.fail_inconclusive(f"monitor counter {need} stayed at zero")
 
